@@ -738,6 +738,25 @@ fn run_line(line: &str) -> String {
             }
             out.join(" ;; ")
         }
+        "tokloc" => {
+            // the location the real lexer attaches to each token ("line:col"), ERR for a lexical error
+            let s = unhex(t.next());
+            let lexer = Lexer::from_char_stream(s.chars());
+            let mut out: Vec<String> = Vec::new();
+            for tok in lexer {
+                match tok {
+                    Ok(tk) => out.push(match tk.location {
+                        Some(l) => format!("{}:{}", l[0], l[1]),
+                        None => "-".to_string(),
+                    }),
+                    Err(_) => {
+                        out.push("ERR".to_string());
+                        break;
+                    }
+                }
+            }
+            format!("OK LOC {}", out.join(" "))
+        }
         "ping" => format!("OK pong {}", ruschm::repl::__VERIF_STAMP),
         x => format!("BADCMD {}", x),
     }
